@@ -101,6 +101,10 @@ func (r *resolver) module(y *Module) error {
 				if err != nil {
 					return fmt.Errorf("%s - %s", i.moduleName, err)
 				}
+				// a text that declares another module name than the one it was requested by
+				// is registered under the requested name too, otherwise an import cycle
+				// through it is followed for ever
+				r.loadedModules[i.moduleName] = i.module
 				// recurse
 				if err = r.module(i.module); err != nil {
 					return err
